@@ -27,7 +27,7 @@ RULE = (
     "segments with one separator style per URI from {/, //, \\, \\/} and <=3 segments with every "
     "per-join separator mix; thorough: <=6 uniform, <=4 mixed; leading in {none, /, //, \\, ../, ..\\}. "
     "Each URI is looked up directly (get_template + has_template) and, for the <=3 (quick) / <=4 "
-    "(thorough) segment set, through 9 tag/API forms (three of them calling the API of a named file namespace, which resolves against that namespace) from calling templates at depth 0..3, under "
+    "(thorough) segment set, through 12 tag/API forms (three with the URI written literally in the tag, three of them calling the API of a named file namespace, which resolves against that namespace) from calling templates at depth 0..3, under "
     "rotating configurations (module_directory on/off, 5 root spellings, 1 or 2 roots). "
     "distinct = by URI string (sharded by hash, de-duplicated); non-trivial = the URI, resolved "
     "independently with posixpath against the caller, leaves the root (an escape attempt) or "
@@ -50,6 +50,7 @@ CANARY = "CANARY-OUTSIDE"
 ROOT_SPELLINGS = ["plain", "slash", "dot", "subdot", "relative"]
 TAGFORMS = ["include", "inherit", "namespace", "api_get_namespace", "api_get_template", "api_include_file",
             "nsapi_get_namespace", "nsapi_get_template", "nsapi_include_file"]
+LITFORMS = ["lit_include", "lit_inherit", "lit_namespace"]
 # the nsapi_* callers reach /lib.html as a named namespace and call ITS api: the URI resolves against /lib.html
 # ("relative to the uri of the namespace itself", Namespace.get_namespace), wherever the caller lives
 
@@ -247,7 +248,7 @@ def via_tag(look, uri, res, cfgname):
     hit = False
     for depth in range(4):
         cdir = "/" + "sub/" * depth
-        for form in TAGFORMS:
+        for form in TAGFORMS + LITFORMS:
             curi = cdir + "c_%s.html" % form
             what = "%s from %s with u=%r [%s]" % (form, curi, uri, cfgname)
             res.evaluations += 1
@@ -256,6 +257,12 @@ def via_tag(look, uri, res, cfgname):
             out = None
             try:
                 try:
+                    if form in LITFORMS:
+                        # the URI is written literally into the tag (no ${}), in a caller registered under curi
+                        if '"' in uri:
+                            continue
+                        look.put_string(curi, {"lit_include": 'C[<%%include file="%s"/>]', "lit_inherit": '<%%inherit file="%s"/>CHILD',
+                                               "lit_namespace": '<%%namespace name="n" file="%s"/>C[${n.body()}]'}[form] % uri)
                     caller = look.get_template(curi)
                     out = caller.render_unicode(u=uri)
                 except ex.TemplateLookupException:
